@@ -18,6 +18,7 @@ mod apis8;
 mod apis9;
 mod apis10;
 mod apis11;
+mod apis12;
 
 fn main() {
     std::panic::set_hook(Box::new(|_| {}));
